@@ -165,8 +165,10 @@ def run(args):
         rowners.append((src, s["hist"]))
     rep.notes["schedules_exported"] = len(scheds)
     rep.notes["schedules_followed_to_the_end"] = followed
+    follow_problem = None
     if scheds and followed < len(scheds) // 2:
-        raise C.Machinery("schedule replay follows only %d of %d schedules" % (followed, len(scheds)))
+        # inconclusive on its own (exit 2) - but the free-running traces below may still show a violation
+        follow_problem = "schedule replay follows only %d of %d schedules" % (followed, len(scheds))
     K.validate_all(rtraces, rowners, rep, {"family": "schedule-replay"})
     if scheds:
         rep.sample({"schedule": scheds[0]["hist"], "program": K.program_for(scheds[0])[0], "spec_ret": scheds[0]["ret"]})
@@ -229,4 +231,6 @@ def run(args):
                 rep.fail(dict(feat, kind="output"), {"program": src, "out": r["r"]["out"], "want": want,
                                                     "outcome": r["r"]["outcome"]})
     rep.notes["race_detector_runs"] = nrace
+    if follow_problem and not rep.violations:
+        raise C.Machinery(follow_problem)
     return rep.finish()
